@@ -415,6 +415,9 @@ class Dependent:
         bound, dt = item
         if not isinstance(dt, DependentType):
             dt = dependent_check(dt)
+        if not isinstance(bound, str):
+            # int | str as a bound is the union of both, as in an annotation
+            bound = normalize_type(bound, None)
         return dt.with_bound(bound)
 
 
